@@ -1816,18 +1816,28 @@ func (m *repoManager) newVersion(parent dvid.UUID, note string, branchname strin
 		return dvid.NilUUID, ErrInvalidVersion
 	}
 
+	// Only one request at a time may extend this repo's DAG.  The node lock is not
+	// held across the checks and r.save() below: save() read-locks every node again
+	// and a recursive read lock deadlocks as soon as a writer (e.g. a merge linking
+	// the same parent) queues up in between.
+	r.dagMu.Lock()
+	defer r.dagMu.Unlock()
+
 	node.RLock()
-	defer node.RUnlock()
-	if !node.locked {
+	parentLocked := node.locked
+	parentBranch := node.branch
+	sisters := append([]dvid.VersionID{}, node.children...)
+	node.RUnlock()
+	if !parentLocked {
 		return dvid.NilUUID, ErrBranchUnlockedNode
 	}
 
 	// check to make sure there are not already
 	// children with the same branch
-	if branchname == "" || branchname == node.branch {
+	if branchname == "" || branchname == parentBranch {
 		// check other children nodes
-		branchname = node.branch
-		for _, sister := range node.children {
+		branchname = parentBranch
+		for _, sister := range sisters {
 			// check if there is already a branch here
 			r.RLock()
 			r.dag.RLock()
@@ -1874,8 +1884,10 @@ func (m *repoManager) newVersion(parent dvid.UUID, note string, branchname strin
 	m.repos[childUUID] = r
 	m.repoMutex.Unlock()
 
+	node.Lock()
 	node.children = append(node.children, childV)
 	node.updated = time.Now()
+	node.Unlock()
 
 	r.Lock()
 	r.dag.Lock()
@@ -1912,6 +1924,9 @@ func (m *repoManager) merge(parents []dvid.UUID, note string, mt MergeType) (dvi
 		return dvid.NilUUID, ErrInvalidUUID
 	}
 	m.repoMutex.RUnlock()
+
+	r.dagMu.Lock()
+	defer r.dagMu.Unlock()
 
 	// Check all parents before the child node is created so that a refused
 	// merge leaves the DAG untouched.  A committed node never reopens, so the
@@ -2406,6 +2421,11 @@ type repoT struct {
 	mutCurID   uint64
 	mutSavedID uint64
 	mutMu      sync.RWMutex
+
+	// dagMu serializes requests that extend the DAG (new version, branch, merge) so
+	// their uniqueness checks and the insertion of the child node are atomic.
+	// Not persisted.
+	dagMu sync.Mutex
 }
 
 // newRepo creates a new repository given a UUID, version, and RepoID,
